@@ -360,7 +360,7 @@ impl Check for C18 {
         (v, info)
     }
     fn rule(&self) -> String {
-        "filter chains of 0-5 entries (optionally host-scoped by a pattern from a small grammar; meta filter with 0-4 rules over a 4-key x 4-value pool and all six operators, allow list, block list by names / pattern / UUIDs, each present, absent or empty), written as configuration values with random alias spellings and deserialised by the crate; strategy any / player_fill(field, max 0-10); 0-8 targets with metadata missing, non-numeric, duplicate counts; players and host names from pools that hit and miss. non-trivial = at least two chain entries, at least one host-scoped, at least three targets, and the chain keeps some targets and drops others; distinct = distinct case".into()
+        "filter chains of 0-5 entries (optionally host-scoped by a pattern from a small grammar; meta filter with 0-4 rules over a 4-key x 4-value pool and all six operators, allow list, block list by names / pattern / UUIDs, each present, absent or empty), written as configuration values with random alias spellings and deserialised by the crate; strategy any / player_fill(field, max 0-10) with the count under a lower-case, mixed-case or blank-containing metadata key; 0-8 targets with metadata missing, non-numeric, duplicate counts; players and host names from pools that hit and miss. non-trivial = at least two chain entries, at least one host-scoped, at least three targets, and the chain keeps some targets and drops others; distinct = distinct case".into()
     }
     fn assumptions(&self) -> Vec<String> {
         vec![
